@@ -243,3 +243,63 @@ Proof.
     destruct H as [E3 T3]. split; [eauto using sext_trans|lia].
   - discriminate H.
 Qed.
+
+(* ---------- the condition block ---------- *)
+
+Lemma compile_flag_inv e sc is sc' : compile_flag e sc = Ok (is, sc') ->
+  exists is0 res fr, compile_expr e (clear_tmps sc) = Ok (is0, res, sc') /\
+    sc_get (sc_named sc') (lit "__eventFlag") = Some fr /\
+    ((exists b, res = ImmBool b /\ is = is0 ++ [mkInstr fr OBind fr res]) \/
+     (exists j t, res = Tmp j (TBool t) /\ set_last_res is0 fr = Some is)).
+Proof.
+  unfold compile_flag. intros H. apply bind_ok_inv in H. destruct H as ([[is0 res] sc1] & Hc & H).
+  destruct (sc_get (sc_named sc1) (lit "__eventFlag")) as [fr|] eqn:Ef; [|discriminate].
+  destruct res as [i t vol|x|b|i t|i t|i t|i t vol|i t|]; try discriminate.
+  - inversion H; subst. exists is0, (ImmBool b), fr. repeat split; eauto.
+  - destruct t; try discriminate. destruct (set_last_res is0 fr) eqn:Es; [|discriminate].
+    inversion H; subst. exists is0, (Tmp i (TBool o)), fr. repeat split; eauto.
+Qed.
+
+
+(* lowering never emits a DEF *)
+Lemma set_last_res_ops is r is' : set_last_res is r = Some is' -> Forall (fun i => i_op i <> ODef) is ->
+  Forall (fun i => i_op i <> ODef) is'.
+Proof.
+  unfold set_last_res. destruct (rev is) as [|l before] eqn:E; [discriminate|]. intros H F. inversion H; subst.
+  assert (His : is = rev before ++ [l]) by (rewrite <- (rev_involutive is), E; reflexivity).
+  rewrite His in F. apply Forall_app in F. destruct F as [F1 F2]. apply Forall_app. split; [exact F1|].
+  inversion F2; subst. constructor; [cbn; assumption|constructor].
+Qed.
+
+Lemma compile_expr_no_def e : forall sc is r sc', compile_expr e sc = Ok (is, r, sc') -> Forall (fun i => i_op i <> ODef) is.
+Proof.
+  induction e as [p|c|o l IHl r0 IHr|]; intros sc is r sc' H.
+  - destruct p as [b|x|n]; [inversion H; constructor| |inversion H; constructor].
+    apply compile_atom_name in H. destruct H as (-> & _). constructor.
+  - discriminate H.
+  - apply compile_sexp_inv in H. destruct H as (is1 & lft & sc1 & is2 & rgt & sc2 & H1 & H2 & H3).
+    assert (F12 : Forall (fun i => i_op i <> ODef) (is1 ++ is2)) by (apply Forall_app; split; eauto).
+    destruct (is_valop o) eqn:Vo.
+    + apply lower_tail_valop in H3; auto. destruct H3 as (_ & -> & _). apply Forall_app. split; [exact F12|].
+      constructor; [|constructor]. cbn. destruct o; try discriminate Vo; discriminate.
+    + destruct (is_condop o) eqn:Co.
+      * apply lower_tail_condop in H3; auto. destruct H3 as (_ & -> & _). apply Forall_app. split; [exact F12|].
+        constructor; [|constructor]. cbn. destruct o; try discriminate Co; discriminate.
+      * destruct o; try discriminate Vo; try discriminate Co.
+        -- apply lower_tail_bind in H3. destruct H3 as (lft' & _ & _ & [(_ & _ & _ & Hs)|(-> & _)]).
+           ++ eapply set_last_res_ops; eauto.
+           ++ apply Forall_app. split; [exact F12|]. constructor; [discriminate|constructor].
+        -- discriminate H3.
+  - discriminate H.
+Qed.
+
+Lemma compile_flag_no_def e sc is sc' : compile_flag e sc = Ok (is, sc') -> Forall (fun i => i_op i <> ODef) is.
+Proof.
+  intros H. apply compile_flag_inv in H. destruct H as (is0 & res & fr & C0 & _ & [(b & -> & ->)|(j & t & _ & Hs)]).
+  - apply Forall_app. split; [eapply compile_expr_no_def; eauto|constructor; [discriminate|constructor]].
+  - eapply set_last_res_ops; [exact Hs|eapply compile_expr_no_def; eauto].
+Qed.
+
+Lemma opcode_def o : o <> ODef -> (opcode o =? 2) = false.
+Proof. intros H. destruct o; try reflexivity. congruence. Qed.
+
